@@ -10,6 +10,9 @@ inductive Cmd where
   | uf (upd : List (Name × Nat))
   | gf (fieldHex : String) (field : Name)
   | gfp (pname : String) (fieldHex : String) (field : Name)
+  /-- the flow compiles the program's text ITSELF (`lang::compile(src, overrides)`, the documented way to obtain a scope) and keeps
+  the scope as `<pname>_c` -/
+  | cu (pname : String) (upd : List (Name × Nat))
 
 structure AlgSpec where
   nameHex : String
@@ -37,6 +40,7 @@ def parseCmd (s : String) : Option Cmd :=
   | ["uf", u] => if u = "-" then some (.uf []) else (parseUpd u).map .uf
   | ["gf", h] => (hexToName h).map fun n => .gf h n
   | ["gfp", p, h] => (hexToName h).map fun n => .gfp p h n
+  | ["cu", p, u] => if u = "-" then some (.cu p []) else (parseUpd u).map fun l => .cu p l
   | _ => none
 
 def parseCmds (s : String) : Option (List Cmd) :=
@@ -164,10 +168,17 @@ structure UState where
 def errKind : GetErr → String
   | .stale => "stale" | .notFound => "notfound" | .invalidType => "invalidtype" | .invalidReport => "invalidreport"
 
+/-- the uid the model gives to the scope a flow compiles itself for the `k`-th registered program (the real uid is whatever the
+counter says; the traces only ever show uids by name) -/
+def cuUid (k : Nat) : Nat := 5000 + k
+
 def showUid (progs : List ProgInfo) (uid : Nat) : String :=
   match progs.find? fun p => p.scope.uid = uid with
   | some p => "u:" ++ p.pname
-  | none => s!"?{uid}"
+  | none =>
+    match (if uid ≥ 5000 then progs[uid - 5000]? else none) with
+    | some p => "u:" ++ p.pname ++ "_c"
+    | none => s!"?{uid}"
 
 def showGet (r : Except GetErr Nat) : String :=
   match r with
@@ -175,38 +186,49 @@ def showGet (r : Except GetErr Nat) : String :=
   | .error e => "ERR " ++ errKind e
 
 /-- the flow of the harness: runs its command list, logging each result -/
-def interp (progs : List ProgInfo) (report : Option (Nat × List Nat)) : List Cmd → UState → UProg UState
+def interp (srcs : List (String × Bytes)) (progs : List ProgInfo) (report : Option (Nat × List Nat)) : List Cmd → UState → UProg UState
   | [], s => .done s
+  | .cu p upd :: rest, s =>
+    let r : Option Scope := do
+      let src ← srcs.lookup p
+      let k ← progs.findIdx? (·.pname = p)
+      let cps ← utf8Decode src
+      match compile (cuUid k) (cps.map Char.ofNat) upd with
+      | .ok (_, sc) => some sc
+      | _ => none
+    match r with
+    | some sc => .log s!"CU {p} OK" (interp srcs progs report rest { s with byProg := (p ++ "_c", sc) :: s.byProg.filter (·.1 ≠ p ++ "_c") })
+    | none => .log s!"CU {p} ERR" (interp srcs progs report rest s)
   | .sp p upd :: rest, s =>
     .setProgram p upd fun r =>
       match r with
       | some sc => .log s!"SP {p} OK {showUid progs sc.uid}"
-          (interp progs report rest { s with cur := some sc, byProg := (p, sc) :: s.byProg.filter (·.1 ≠ p) })
-      | none => .log s!"SP {p} ERR" (interp progs report rest s)
+          (interp srcs progs report rest { s with cur := some sc, byProg := (p, sc) :: s.byProg.filter (·.1 ≠ p) })
+      | none => .log s!"SP {p} ERR" (interp srcs progs report rest s)
   | .uf upd :: rest, s =>
     match s.cur with
-    | none => .log "UF NOSCOPE" (interp progs report rest s)
-    | some sc => .updateField sc upd fun ok => .log (if ok then "UF OK" else "UF ERR") (interp progs report rest s)
+    | none => .log "UF NOSCOPE" (interp srcs progs report rest s)
+    | some sc => .updateField sc upd fun ok => .log (if ok then "UF OK" else "UF ERR") (interp srcs progs report rest s)
   | .gf h f :: rest, s =>
     match report with
-    | none => .log s!"GF {h} NOREPORT" (interp progs report rest s)
+    | none => .log s!"GF {h} NOREPORT" (interp srcs progs report rest s)
     | some (uid, fields) =>
       match s.cur with
-      | none => .log s!"GF {h} NOSCOPE" (interp progs report rest s)
-      | some sc => .log s!"GF {h} {showGet (getField uid fields f sc)}" (interp progs report rest s)
+      | none => .log s!"GF {h} NOSCOPE" (interp srcs progs report rest s)
+      | some sc => .log s!"GF {h} {showGet (getField uid fields f sc)}" (interp srcs progs report rest s)
   | .gfp p h f :: rest, s =>
     match report with
-    | none => .log s!"GFP {p} {h} NOREPORT" (interp progs report rest s)
+    | none => .log s!"GFP {p} {h} NOREPORT" (interp srcs progs report rest s)
     | some (uid, fields) =>
       match s.byProg.lookup p with
-      | none => .log s!"GFP {p} {h} NOSCOPE" (interp progs report rest s)
-      | some sc => .log s!"GFP {p} {h} {showGet (getField uid fields f sc)}" (interp progs report rest s)
+      | none => .log s!"GFP {p} {h} NOSCOPE" (interp srcs progs report rest s)
+      | some sc => .log s!"GFP {p} {h} {showGet (getField uid fields f sc)}" (interp srcs progs report rest s)
 
-def mkPolicy (algs : List AlgSpec) (progs : List ProgInfo) : Policy UState :=
+def mkPolicy (algs : List AlgSpec) (srcs : List (String × Bytes)) (progs : List ProgInfo) : Policy UState :=
   { newFlow := fun alg _ _ =>
-      interp progs none ((algs[alg]?.map (·.nf)).getD []) { alg := alg, cur := none, byProg := [] }
+      interp srcs progs none ((algs[alg]?.map (·.nf)).getD []) { alg := alg, cur := none, byProg := [] }
     onReport := fun s _ uid fields =>
-      interp progs (some (uid, fields)) ((algs[s.alg]?.map (·.or_)).getD []) s
+      interp srcs progs (some (uid, fields)) ((algs[s.alg]?.map (·.or_)).getD []) s
     onClose := fun s => .done s }
 
 /-! ## configuration: compile the programs as `run_inner` does -/
@@ -265,7 +287,13 @@ def sortDrRuns (evs : List Ev) : List Ev :=
 /-- which programs' installs have been observed on the send side so far -/
 def knownUid (progs : List ProgInfo) (trace : List Ev) (p : String) : Option Nat :=
   match progs.find? (·.pname = p) with
-  | none => none
+  | none =>
+    -- `<q>_c`: the scope a flow compiled itself for program `q` (known once a `CU q OK` has been logged)
+    match progs.findIdx? (fun pi => pi.pname ++ "_c" = p) with
+    | some k =>
+      let q := (progs[k]?.map (·.pname)).getD ""
+      if trace.any (fun e => match e with | .log _ m => m = s!"CU {q} OK" | _ => false) then some (cuUid k) else none
+    | none => none
   | some pi =>
     if trace.any (fun e => match e with
         | .tx _ b => rd16 b = 2 ∧ b.length ≥ 20 ∧ rd32 (b.drop 8) = pi.scope.uid
@@ -296,7 +324,7 @@ def runCmd (args : List String) : String :=
       | none => "RES ERR closes=1 strong=1 late=NONE"
       | some progs =>
         let cfg : Cfg := { algs := algs.map fun a => { name := a.name, hasInstance := a.inst }, progs := progs }
-        let pol := mkPolicy algs progs
+        let pol := mkPolicy algs (collectProgs algs) progs
         let fuel := items.length + 2 + (items.foldl (fun n i => match i with
           | .dgram _ ms => n + (ms.flatMap (renderMsg fun _ => none)).length | _ => n) 0)
         match runDriver algs progs cfg pol fuel (Backend.new (List.replicate 1024 0)) items St.init [] with
